@@ -685,6 +685,48 @@ def add_speeds(ctx):
     ctx.floor('callers of add_speeds', n, 2)
 
 
+def select_set(ctx):
+    """C02-7.select: which speed set a link contributes: its train-type-neutral set when it has one, otherwise the entry of its
+    per-train-type table whose key equals the train's type (an error when there is none) — never another type's set"""
+    R = 'C02-7.select'
+    b = _fn(ctx, 'extract_speed_set')
+    if b is None:
+        ctx.unproved(R, 'extract_speed_set', 'anchor not found'); return
+    eng = engine(ctx)
+    an = eng.analysis(b)
+    if an.exit_state is None or len(b.params) != 3:
+        ctx.unproved(R, 'extract_speed_set', 'not analysable', ctx.where(b)); return
+    w = ctx.where(b)
+    r = an.ret()
+    sets, one, tp = (('obj', b.params[0][0]),), (('obj', b.params[1][0]),), (('obj', b.params[2][0]),)
+    g = None
+    for x in walk(r):
+        if x[0] == 'gamma' and x[1] == ('discr', ('pre', one)):
+            g = x; break
+    ok = r[0] == 'ok' and g is not None and g[2] == ('ref', one + (('as', 'Some'), ('f', '#0')), 'shr')
+    ctx.check(ok, R, 'extract_speed_set|neutral', 'a link\'s own train-type-neutral speed set is used whenever it has one', 'returns %s' % show(r, an.names)[:200], w)
+    fnd = None
+    if g is not None:
+        for x in walk(g[3]):
+            if x[0] == 'uf' and x[1] == 'iter.find':
+                fnd = x
+    ok2 = fnd is not None and any(y == ('pre', sets) or (y[0] == 'uf' and 'HashMap::iter' in y[1] and ('pre', sets) in y) for y in walk(fnd[2])) and fnd[3][0] == 'closure'
+    if ok2:
+        cb = eng.closure_body(fnd[3][1])
+        ca = eng.analysis(cb) if cb is not None else None
+        pr = ca.ret() if ca is not None and ca.exit_state is not None else None
+        item = ('obj', cb.params[1][0]) if cb is not None and len(cb.params) > 1 else None
+        ok2 = pr is not None and pr[0] == 'eq' and any(sd[0] == 'pre' and sd[1][:2] == (item, ('f', '#0')) for sd in (pr[1], pr[2])) and \
+            any(sd[0] == 'pre' and sd[1][-1] == ('f', 'train_type') for sd in (pr[1], pr[2]))
+        why = 'predicate %s' % (show(pr, ca.names)[:120] if pr is not None else None)
+    else:
+        why = 'no search of the per-train-type table'
+    ctx.check(ok2, R, 'extract_speed_set|by type', 'otherwise the table entry whose key equals the train\'s type is used', why, w)
+    # the value (second component) of the found entry, and an error (not a default) when nothing is found
+    val_ok = g is not None and any(x[0] == 'pre' and x[1][-1] == ('f', '#1') or (x[0] == 'proj' and x[2] == ('f', '#1')) for x in walk(g[3])) and 'unwrap' in show(g[3])[:200]
+    ctx.check(val_ok, R, 'extract_speed_set|missing', 'a missing entry is an error value, not a silently substituted set', 'fallback %s' % (show(g[3], an.names)[:160] if g is not None else None), w)
+
+
 def applies(ctx):
     """speed_set_applies: false only when some parameter comparison fails; arm tables by variant name"""
     R = 'C02-4.applies'
